@@ -107,7 +107,7 @@ func (m *Model) RunErrLine(s *Sink, rule string) {
 						if !ok {
 							continue
 						}
-						if fa.Field == ti && tokenSource(stv.Val, 0) {
+						if fa.Field == ti && tokenSource(m, stv.Val, 0) {
 							fromTok = true
 						}
 						if st.Field(fa.Field).Name() == "Value" && isEmptyStringConst(stv.Val) {
@@ -248,42 +248,42 @@ func (m *Model) RunErrLine(s *Sink, rule string) {
 		{"textwire", "applyComponentToProgram", "component '%s' is not defined", "comp"},
 		{"ast", "checkUndefinedInsert", "insert with the name", "inserts"},
 	} {
-		var fn *ssa.Function
-		if spec.pkg == "ast" {
-			fn = m.Method("ast", "Program", spec.fn)
-		} else {
-			fn = m.PkgFunc(spec.pkg, spec.fn)
-		}
-		if fn == nil {
-			continue
-		}
-		key := fnKey(fn) + "|error carries the construct's line"
-		ok := false
-		for _, b := range fn.Blocks {
-			for _, in := range b.Instrs {
-				c, isC := in.(*ssa.Call)
-				if !isC || c.Call.StaticCallee() == nil || canonFnName(c.Call.StaticCallee()) != "New" || len(c.Call.Args) < 4 {
-					continue
-				}
-				msg, _ := constOfValue(c.Call.Args[3])
-				if !strings.Contains(msg, spec.msg) {
-					continue
-				}
-				if lc, isL := c.Call.Args[0].(*ssa.Call); isL && lc.Call.StaticCallee() != nil && canonFnName(lc.Call.StaticCallee()) == "Line" {
-					ok = true
+		// anchored on the message, wherever the error is built (the named function or a helper it was moved into)
+		var sites []*ssa.Call
+		for _, fn := range m.ModFns {
+			if fn.Blocks == nil || isUserPkg(fnPkgPath(fn)) {
+				continue
+			}
+			for _, b := range fn.Blocks {
+				for _, in := range b.Instrs {
+					c, isC := in.(*ssa.Call)
+					if !isC || c.Call.StaticCallee() == nil || canonFnName(c.Call.StaticCallee()) != "New" || !inPkg(c.Call.StaticCallee(), "fail") || len(c.Call.Args) < 4 {
+						continue
+					}
+					if msg, _ := constOfValue(c.Call.Args[3]); strings.Contains(msg, spec.msg) {
+						sites = append(sites, c)
+					}
 				}
 			}
 		}
-		if ok {
-			s.OK(rule, key, m.Pos(fn.Pos()), "the error is built with the Line() of the offending %s", spec.lineOf)
-		} else {
-			s.Violation(rule, key, m.Pos(fn.Pos()), "%s reports its error without the Line() of the offending construct", fnKey(fn))
+		if len(sites) == 0 {
+			s.Undecided(rule, spec.pkg+"."+spec.fn+"|error carries the construct's line", "-", "no fail.New call with the message %q found", spec.msg)
+			continue
+		}
+		for _, c := range sites {
+			fn := c.Parent()
+			key := fnKey(fn) + "|error carries the construct's line"
+			if lc, isL := c.Call.Args[0].(*ssa.Call); isL && (lc.Call.IsInvoke() && lc.Call.Method.Name() == "Line" || lc.Call.StaticCallee() != nil && canonFnName(lc.Call.StaticCallee()) == "Line") {
+				s.OK(rule, key, m.InstrPos(c), "the error is built with the Line() of the offending %s", spec.lineOf)
+			} else {
+				s.Violation(rule, key, m.InstrPos(c), "%s reports its error without the Line() of the offending construct", fnKey(fn))
+			}
 		}
 	}
 }
 
 // tokenSource: v is p.curToken / p.peekToken, or a local copy of it.
-func tokenSource(v ssa.Value, d int) bool {
+func tokenSource(m *Model, v ssa.Value, d int) bool {
 	if d > 4 {
 		return false
 	}
@@ -292,9 +292,21 @@ func tokenSource(v ssa.Value, d int) bool {
 		return true
 	}
 	switch x := v.(type) {
+	case *ssa.Parameter:
+		// a token handed down by the callers: every call site passes the parser's token (or a copy of it)
+		rs := m.resolveUp(x, nil, 0)
+		if len(rs) == 1 && rs[0] == v {
+			return false
+		}
+		for _, r := range rs {
+			if !tokenSource(m, r, d+1) {
+				return false
+			}
+		}
+		return len(rs) > 0
 	case *ssa.Phi:
 		for _, e := range x.Edges {
-			if !tokenSource(e, d+1) {
+			if !tokenSource(m, e, d+1) {
 				return false
 			}
 		}
@@ -303,7 +315,7 @@ func tokenSource(v ssa.Value, d int) bool {
 		// load of a local that was assigned from the token
 		if al, ok := x.X.(*ssa.Alloc); ok {
 			for _, r := range *al.Referrers() {
-				if st, ok := r.(*ssa.Store); ok && st.Addr == ssa.Value(al) && tokenSource(st.Val, d+1) {
+				if st, ok := r.(*ssa.Store); ok && st.Addr == ssa.Value(al) && tokenSource(m, st.Val, d+1) {
 					return true
 				}
 			}
